@@ -169,3 +169,14 @@ func (un *UntrustedNode) VerifDrainOutgoing() []wire.Message {
 		}
 	}
 }
+
+// VerifFillOutgoing fills the untrusted node's outgoing channel to its capacity: what a peer that has stopped
+// reading its socket causes (sendOutgoing stuck in the socket write, nobody takes from the channel).
+func (un *UntrustedNode) VerifFillOutgoing() int {
+	n := 0
+	for len(un.outgoing.Channel) < cap(un.outgoing.Channel) {
+		un.outgoing.Channel <- wire.NewMsgPing(uint64(n))
+		n++
+	}
+	return n
+}
